@@ -24,7 +24,7 @@ func init() {
 		ID:    "C01",
 		Level: "model_checking",
 		Rule: "choice-tree exploration: every corpus template x every assignment of <=k letters of {/*c*/, // c, newline, blank line, multi-line /*c*/} to its inter-token gaps, " +
-			"canonicalised with gofmt and deduplicated (state = canonical text); each distinct canonical file is pushed through Parse/Fprint, explicit Decorator+Restorer on a shared populated FileSet (also: one Restorer restoring two files before either is printed; a Restorer with Extras), " +
+			"canonicalised with gofmt and deduplicated (state = canonical text); each distinct canonical file is pushed through Parse/Fprint, explicit Decorator+Restorer on a shared populated FileSet (also: one Restorer restoring two files before either is printed; a Restorer with Extras; the Decorate/DecorateFile/RestoreFile helpers and a named FileRestorer), " +
 			"ParseFile with 3 parser modes and (k<=1) ParseDir; non-trivial = canonical file with at least one insertion",
 		Assumptions: []string{"go/format of this toolchain defines 'gofmt canonical'", "comment texts range over the alphabet only", "templates are the committed corpus"},
 		Units:       func(tier string) []string { return gapUnits(gen.Templates(), c01Shards) },
@@ -90,6 +90,40 @@ func checkC01(src string, withDir bool) core.Outcome {
 			return buf.String(), err
 		}},
 	}
+	eps = append(eps, ep{"helpers Decorate + RestoreFile", func() (string, error) {
+		fset := token.NewFileSet()
+		af, err := parser.ParseFile(fset, "a.go", src, parser.ParseComments)
+		if err != nil {
+			return "", err
+		}
+		dn, err := decorator.Decorate(fset, af)
+		if err != nil {
+			return "", err
+		}
+		rfset, raf, err := decorator.RestoreFile(dn.(*dst.File))
+		if err != nil {
+			return "", err
+		}
+		var buf bytes.Buffer
+		err = format.Node(&buf, rfset, raf)
+		return buf.String(), err
+	}})
+	eps = append(eps, ep{"helper DecorateFile + FileRestorer.Fprint", func() (string, error) {
+		fset := token.NewFileSet()
+		af, err := parser.ParseFile(fset, "a.go", src, parser.ParseComments)
+		if err != nil {
+			return "", err
+		}
+		df, err := decorator.DecorateFile(fset, af)
+		if err != nil {
+			return "", err
+		}
+		fr := decorator.NewRestorer().FileRestorer()
+		fr.Name = "restored.go"
+		var buf bytes.Buffer
+		err = fr.Fprint(&buf, df)
+		return buf.String(), err
+	}})
 	eps = append(eps, ep{"Restorer with Extras", func() (string, error) {
 		f, err := decorator.Parse(src)
 		if err != nil {
